@@ -99,3 +99,32 @@ def close(a, b, atol, rtol=0.0):
     bad |= np.isnan(a) != np.isnan(b)
     d = np.where(np.isnan(d), 0.0, d)
     return not bad.any(), float(d.max())
+
+
+LAYOUTS = ['C', 'C', 'C', 'cols-view', 'fortran', 'strided', 'readonly']
+
+
+def with_layout(a, kind, writable_needed=False):
+    """The same values in another legal memory layout: a column view of a wider array, Fortran order, every second
+    row of a longer array, or a read-only array.  (All of them are accepted by the unchanged package.)"""
+    if a is None:
+        return None
+    a = np.asarray(a)
+    if kind in (None, 'C') or a.size == 0:
+        return a.copy()
+    if kind == 'readonly':
+        b = a.copy()
+        if not writable_needed:
+            b.setflags(write=False)
+        return b
+    if kind == 'fortran':
+        return np.array(a, order='F', copy=True) if a.ndim > 1 else a.copy()     # always a new array
+    if kind == 'cols-view' and a.ndim == 2:
+        big = np.full((a.shape[0], a.shape[1] + 1), -7, dtype=a.dtype)
+        big[:, :-1] = a
+        return big[:, :-1]
+    big = np.repeat(a, 2, axis=0)          # 'strided' (and 'cols-view' of a 1-D array)
+    big[1::2] = 0
+    if big.dtype.kind == 'f':
+        big[1::2] = np.nan
+    return big[::2]
